@@ -219,9 +219,9 @@ def _any_all(I, a, want_any: bool):
         else:
             t = I.ops.truthy(s.mapv)
             if want_any:
-                parts.append(I.ops.count(s.lid, s.pidx, s.hi, s.g, z3.And(s.cond, t)) > 0)
+                parts.append(I.ops.count_seg(s, z3.And(s.cond, t)) > 0)
             else:
-                parts.append(I.ops.count(s.lid, s.pidx, s.hi, s.g, z3.And(s.cond, z3.Not(t))) == 0)
+                parts.append(I.ops.count_seg(s, z3.And(s.cond, z3.Not(t))) == 0)
     if want_any:
         return SBool(z3.Or(*parts) if parts else FALSE)
     return SBool(z3.And(*parts) if parts else TRUE)
@@ -244,7 +244,7 @@ def b_sum(I, a, k):
                 tot = tot + I.ops.as_int(x)
         else:
             if isinstance(s.mapv, (SInt, SBool)) and not I._depends_on(s.mapv, s.g):
-                tot = tot + I.ops.as_int(s.mapv) * I.ops.count(s.lid, s.pidx, s.hi, s.g, s.cond)
+                tot = tot + I.ops.as_int(s.mapv) * I.ops.count_seg(s)
             else:
                 raise Unsupported("sum over a symbolic sequence")
     return SInt(tot)
@@ -398,7 +398,7 @@ def b_next(I, a, k):
             if s[1]:
                 return s[1][0]
             continue
-        n = I.ops.count(s.lid, s.pidx, s.hi, s.g, s.cond)
+        n = I.ops.count_seg(s)
         if I.st.branch(n > 0):
             w = I.first_index(s.lid, s.pidx, s.hi, s.g, s.cond)
             return I.subst_value(s.mapv, s.g, w)
@@ -553,7 +553,7 @@ def l_count(I, a, k):
             for it in s[1]:
                 tot = tot + z3.If(I.ops.eq(it, x), 1, 0)
         else:
-            tot = tot + I.ops.count(s.lid, s.pidx, s.hi, s.g, z3.And(s.cond, I.ops.eq(s.mapv, x)))
+            tot = tot + I.ops.count_seg(s, z3.And(s.cond, I.ops.eq(s.mapv, x)))
     return SInt(tot)
 
 
@@ -610,7 +610,7 @@ def _subset(I, small, big):
                 parts.append(I.contains(big, x))
         else:
             inn = I.contains(big, s.mapv)
-            parts.append(I.ops.count(s.lid, s.pidx, s.hi, s.g, z3.And(s.cond, z3.Not(inn))) == 0)
+            parts.append(I.ops.count_seg(s, z3.And(s.cond, z3.Not(inn))) == 0)
     return z3.And(*parts) if parts else TRUE
 
 
